@@ -321,18 +321,23 @@ def r13_4_required_columns(ctx: Ctx, rule: str = "R13.4") -> None:
             for fld in children:
                 inst = f"{c.name}.{meth}:{fld}"
                 covered = True
+                checked = 0
                 for p in ctx.paths(f):
                     if p.outcome != "return":
                         continue
                     # paths that skip the loop over a tuple field are the zero-operand case
                     if any(s.kind == "loop" and not s.value and isinstance(s.node, ast.For) and src(s.node.iter) == f"self.{fld}" for s in p.steps):
                         continue
+                    # answering "not supported" early is the conservative answer: only acceptance must consult children
+                    if meth == "is_supported_by" and isinstance(p.value, ast.Constant) and p.value.value is False:
+                        continue
                     sl = backward_slice(p, [p.value], control=True)
                     reads = sl.reads("self", fld)
+                    checked += 1
                     uses_child = any(ch[-1] == meth or (meth == "is_supported_by" and "is_supported_by" in ch) for ch in sl.chains) or any(call_attr(cc) == meth for cc in sl.calls)
                     if not (reads and uses_child):
                         covered = False
-                if covered:
+                if covered and checked:
                     run.ok(rule, inst)
                 else:
                     run.fail(
